@@ -2136,6 +2136,38 @@ def check_property(call, rc):
         if rc['out']['toptr'] != exp or rc['out']['outoffsets'] != eo:
             return 'sort_asstrings: expected %r %r got %r %r' % (exp, eo, rc['out']['toptr'], rc['out']['outoffsets'])
         return None
+    if k == 'awkward_NumpyArray_contiguous_copy_from_many':
+        exp = []
+        for row, L in zip(v['fromptrs'], v['fromlens'][:-1]):
+            for j in range(L):
+                exp += row[v['pos'][j]:v['pos'][j] + v['stride']]
+        if rc['out']['toptr'] != exp:
+            return 'contiguous_copy_from_many: expected %r got %r' % (exp, rc['out']['toptr'])
+        return None
+    if k == 'awkward_NumpyArray_unique_strings':
+        # reference transcription of the in-place compaction (src/cpu-kernels/awkward_NumpyArray_unique_strings_uint8.cpp)
+        buf, off = list(v['toptr']), v['offsets']
+        slen = index = counter = start = 0
+        for i in range(v['offsetslength'] - 1):
+            differ = False
+            if off[i + 1] - off[i] != slen:
+                differ = True
+            else:
+                kk = 0
+                for j in range(off[i], off[i + 1]):
+                    if buf[start + kk] != buf[j]:
+                        differ = True
+                    kk += 1
+            if differ:
+                for j in range(off[i], off[i + 1]):
+                    buf[index] = buf[j]
+                    index += 1
+                    start = off[i]
+                counter += 1
+            slen = off[i + 1] - off[i]
+        if rc['out']['toptr'] != buf or rc['out']['tolength'] != [counter + 1]:
+            return 'unique_strings: expected %r %r got %r %r' % (buf, counter + 1, rc['out']['toptr'], rc['out']['tolength'])
+        return None
     if k == 'awkward_ListOffsetArray_argsort_strings':
         off0, off1, data, par = v['stringstarts'], v['stringstops'], v['stringdata'], v['fromparents']
         out = rc['out']['tocarry']
